@@ -474,6 +474,8 @@ Fixpoint of_expr (e : expr) : texpr :=
   | EWhile c b => TLoop [of_expr c; of_expr b]
   | EDoWhile b c => TLoop [of_expr b; of_expr c]
   | EFor i c n b => TLoop [of_expr i; of_expr c; of_expr n; of_expr b]
+  | EForInRange _ a b body => TLoop [TOp [of_expr a; of_expr b]; of_expr body]   (* in_value = [a .. b] *)
+  | EForInArr _ a body => TLoop [of_expr a; of_expr body]
   | ELambda _ => TFunc
   | EArrLit es _ => TOp (map of_expr es)
   | ERecNew _ args => TOp (map of_expr args)
